@@ -132,10 +132,18 @@ func (d *Device) handleABSEvent(ie *input.InputEvent) {
 	}
 
 	// Normalize Value
-	if ie.Event.Value < 0 {
+	switch {
+	case min >= 0 && max > min:
+		// an axis without negative values travels from its minimum, which need not be 0 (a 1..255 stick, a touchpad), to its maximum
+		value = (float64(ie.Event.Value) - float64(min)) / (float64(max) - float64(min))
+	case min >= 0:
+		value = 0 // no travel at all
+	case ie.Event.Value < 0:
 		value = float64(ie.Event.Value) / math.Abs(float64(min))
-	} else {
-		value = float64(ie.Event.Value) / math.Abs(float64(max))
+	case max > 0:
+		value = float64(ie.Event.Value) / float64(max)
+	default:
+		value = 0 // a range that ends at 0 has no positive side
 	}
 
 	// Put it always between -1.0 and 1.0 so we can deadzone the center
